@@ -96,7 +96,7 @@ def run(pid, tier, seed):
             text = "history `%s`: the ledger is not back to its state at Begin when the Lexicon has been destroyed" % kind
         else:
             text = "history `%s`: line %d is not a ledger step: %s" % (kind, lineno, line[:200])
-        path = vlib.save_replay(pid, "%s-%d.ndjson" % (kind.replace("+", "_"), lineno), "\n".join(prefix[-50:]) + "\n")
+        path = vlib.save_replay(pid, "%s-%d.ndjson" % (kind.replace("+", "_").replace("?", "start"), lineno), "\n".join(prefix[-50:]) + "\n")
         violations.append((key, text, path))
     for name, ev, p in san:
         if ev is not None:
@@ -121,7 +121,7 @@ def run(pid, tier, seed):
                 "(global operator new/delete replaced): allocation by allocation when <= 400 allocations, as counters otherwise. "
                 "IprLedgerMC is checked both tight (no violation) and with a forgetful owner (violation found) as a vacuity guard. "
                 "The sanitizer runs contribute only their verdict. distinct_nontrivial = history kinds + sanitizer runs.",
-        "samples": summaries[5:8] + [lines[2]], "exhaustive": False,
+        "samples": (summaries[5:8] + lines[2:3]) or lines[-1:], "exhaustive": False,
         "histories": {e["kind"]: {"allocs": e["allocs"], "outstanding": e["outstanding"]} for e in summaries},
         "sanitizer_runs": [n for n, _, _ in san],
     }
